@@ -228,3 +228,15 @@ _patch('C10', 'level_text', 'two lists that never grew are equal as values exact
        'two lists that never grew are equal as values exactly to themselves; pop, index assignment (quick), push, remove and insert (thorough) through a STALE alias of a relocated list act on the relocated list and leave the forwarding intact; RawSharedVector::trace follows forwarding (Verus, gctrace unit).')
 _patch('C11', 'level_text', 'so a native body only runs on arguments of the declared kinds.',
        'and the real call_native runs a native body only after that gate accepted exactly the top-of-stack arguments, so a native body only runs on arguments of the declared kinds.')
+
+CHECKS['C10']['engine'] = 'vx'
+CHECKS['C10']['technique'] = 'Verus contracts on the real List operations over an explicit heap of list vectors threaded through the calls (R16), against a sequence model seen through ANY handle; Kani bounded harnesses on the real raw vector representation'
+_patch('C10', 'level_text', 'Bounded checks only: a push beyond capacity',
+       'Unbounded proof (Verus, listops unit) on the extracted real List::{push, pop, insert, remove, len, cap, state, ensure_capacity, grow} and RawSharedVector::{len, cap, is_empty}: after every operation EVERY handle of the list — the one used, any alias, stale handles of vectors the list has grown out of, the relocated vector itself — denotes the same new sequence, every other list is untouched, handles of one list stay handles of one list; growth allocates a fresh vector holding the same elements and forwards the old one to it; forwarding chains are finite. Bounded (Kani) on the real raw representation: a push beyond capacity')
+_patch('C10', 'level_note', 'category other: bounded (one list, len 1 cap 1, one push).',
+       'Trusted (A-listheap): the raw primitives of RawSharedVector (header reads and writes, element reads and writes through item_mut which follows forwarding, the memmove, the allocation of the grown copy) are stubs over the explicit heap; their real bodies are exercised by the bounded Kani harnesses (one list, lengths up to 3).')
+CHECKS['C11']['engine'] = 'vx'
+CHECKS['C11']['technique'] = 'Verus proof of the real List push / pop / insert / remove against the sequence model; Kani loop-free harness over every f64 for index normalisation; Verus proof of the native signature gate and of call_native'
+_patch('C11', 'level_text', 'Bounded: real List::pop (quick), remove and insert (thorough) agree with the sequence model for lists up to 3 elements and every index 0..4, receiver unchanged on OutOfBounds.',
+       'Unbounded (Verus, listops unit): the real List::pop / remove / insert / push agree with Seq::drop_last / remove / insert / push for every list, index and capacity (growth included); an empty pop is None, an index outside the list is OutOfBounds, and in both cases nothing changes. Bounded (Kani, raw representation): pop (quick), remove and insert (thorough) for lists up to 3 elements.')
+_patch('C11', 'level_note', 'category other because most obligations are bounded.', 'The bounded harnesses exercise the raw primitives the Verus unit stubs.')
